@@ -61,12 +61,15 @@ def oracle(tier, rng, seeds):
         if not f0:
             f0, s0b = effects.preemption_search(rng, dpairs, 400 if tier == 'quick' else 3000, hot=crit, only_hot=True, stop_after=1, warm=True)
             s0['preemption_points'] += s0b['preemption_points']
+        if not f0:
+            f0, s0b = effects.preemption_search(rng, dpairs, 200 if tier == 'quick' else 1500, hot=crit, only_hot=True, stop_after=1, busy=effects.global_workload(rng, 90))
+            s0['preemption_points'] += s0b['preemption_points']
     f1, s1 = effects.preemption_search(rng, ('auto', pairs, 6 if tier == 'quick' else 30), 60 if tier == 'quick' else 250, hot=crit)
     f1 = f0 + f1
     s1['preemption_points'] += s0['preemption_points']
     s1['directed_pairs'] = len(dpairs); s1['directed_points'] = s0['preemption_points']; s1['hot_functions'] = reach
     for f in f1:
-        fails.append(Failure(f['what'], {'kind': 'preempt', 'A': f['A'], 'B': f['B'], 'k': f['k'], 'warm': f.get('warm', False)}))
+        fails.append(Failure(f['what'], {'kind': 'preempt', 'A': f['A'], 'B': f['B'], 'k': f['k'], 'warm': f.get('warm', False), 'busy': f.get('busy', [])}))
     f2, s2 = effects.thread_soak(rng, 120 if tier == 'quick' else 1000, 8, 2 if tier == 'quick' else 4)
     for f in f2:
         fails.append(Failure(f['what'], {'kind': 'soak', 'call': f['call']}))
@@ -79,7 +82,9 @@ def replay(f):
     if d['kind'] == 'preempt':
         A = (d['A'][0], tuple(tuple(x) if isinstance(x, list) and len(x) == 2 and all(isinstance(y, float) for y in x) else x for x in d['A'][1]))
         B = (d['B'][0], tuple(tuple(x) if isinstance(x, list) and len(x) == 2 and all(isinstance(y, float) for y in x) else x for x in d['B'][1]))
-        fl, _ = effects.preemption_search(random.Random(0), [(A, B)], 100000, warm=d.get('warm', False))
+        def _fix(c):
+            return (c[0], tuple(tuple(x) if isinstance(x, list) and len(x) == 2 and all(isinstance(y, float) for y in x) else x for x in c[1]))
+        fl, _ = effects.preemption_search(random.Random(0), [(A, B)], 100000, warm=d.get('warm', False), busy=[_fix(c) for c in d.get('busy', [])] or None)
         return bool(fl)
     fl, _ = effects.thread_soak(random.Random(0), 200)
     return bool(fl)
